@@ -3,6 +3,7 @@ import RSV.Driver.Fast
 import RSV.Model.Leopard
 import RSV.Model.Cert
 import RSV.Model.LeoCert
+import RSV.Model.LeoCert16
 import RSV.Proofs.LeoSched
 import RSV.Proofs.LeoSchedBounded
 /-! Leopard ops of the driver: the schedule model evaluated on byte shards -/
@@ -78,7 +79,9 @@ def leoGenOp (fam : String) (d p : Nat) (dump : Bool) : String :=
     let n := Leo.ceilPow2 (m + d)
     let l0 := if p * d * (n - m) ≤ 3000000 then
         (if (G.map (·.extract 0 d)) == leoLagrange (leoCtx fam) d p then "1" else "0") else "-"
-    let cert := if gf16 then "-" else (if Leo.leo8Cert d p G then "1" else "0")
+    -- the proved MDS certificates (`C01_leo8_cert`, `C01_leo16_cert`) on the generator of the schedule model
+    let cert := if gf16 then (if d * p ≤ 400000 then (if Leo.leo16Cert d p G then "1" else "0") else "-")
+      else (if Leo.leo8Cert d p G then "1" else "0")
     let body := if dump then hexBytes bytes else hex64 (fnvBytes fnvInit bytes)
     -- hypotheses of the structural theorems (C04_local/linear/scratch), decided for this configuration:
     -- every step addresses rows inside the work area, no row is read before it is written, parity rows end defined
